@@ -2,39 +2,53 @@
 // FragmentBuffer: the only unsafe block of the crate (finalize).
 use super::*;
 
-//@h props=C19,C04 tier=quick timeout=900 role=fragment-buffer-layout replay=none
-//@fn FragmentBuffer::{new, write, is_finished, finalize}, drop of the returned Box<[u8]>
-//@bound two fragments: a full 1448-byte fragment 0 and a last fragment of any length 0..=3, written in either order; Kani's allocator model checks dealloc size == allocation size
-#[kani::proof]
-#[kani::unwind(5)]
-fn o19_1_finalize_dealloc_layout() {
+fn finalize_layout(last_len: usize, last_first: bool) {
     let mut fb = FragmentBuffer::new(2);
-    let n: usize = kani::any();
-    kani::assume(n <= 3);
-    let last: Box<[u8]> = if n == 0 { Box::new([]) } else if n == 1 { Box::new([kani::any()]) } else if n == 2 { Box::new([kani::any(), kani::any()]) } else { Box::new([kani::any(), kani::any(), kani::any()]) };
-    let b1: u8 = if n > 0 { last[n - 1] } else { 0 };
+    let mut last = vec![0u8; last_len].into_boxed_slice();
+    let b1: u8 = kani::any();
+    if last_len > 0 { last[last_len - 1] = b1; }
     let mut first = vec![0u8; MAX_FRAGMENT_SIZE].into_boxed_slice();
-    let k: usize = kani::any();
-    kani::assume(k < MAX_FRAGMENT_SIZE);
     let v: u8 = kani::any();
-    first[k] = v;
-    if kani::any() {
-        fb.write(0, first);
-        assert!(!fb.is_finished());
+    first[77] = v;
+    if last_first {
         fb.write(1, last);
+        assert!(!fb.is_finished());
+        fb.write(0, first);
     } else {
-        fb.write(1, last);
-        assert!(!fb.is_finished());
         fb.write(0, first);
+        assert!(!fb.is_finished());
+        fb.write(1, last);
     }
     assert!(fb.is_finished());
     let out = fb.finalize();
-    assert!(out.len() == MAX_FRAGMENT_SIZE + n, "[C04] reassembled length is the sum of the fragment lengths");
-    assert!(out[k] == v, "[C04] fragment 0 bytes in place");
-    if n > 0 { assert!(out[MAX_FRAGMENT_SIZE + n - 1] == b1, "[C04] last fragment bytes in place"); }
-    // dropping the box hands the block back to the allocator: must use the layout it was allocated with
+    assert!(out.len() == MAX_FRAGMENT_SIZE + last_len, "[C04] reassembled length is the sum of the fragment lengths");
+    assert!(out[77] == v, "[C04] fragment 0 bytes in place");
+    if last_len > 0 { assert!(out[MAX_FRAGMENT_SIZE + last_len - 1] == b1, "[C04] last fragment bytes in place"); }
+    // dropping the box hands the block back to the allocator: Kani's allocator model asserts that the
+    // layout passed to dealloc is the one the block was allocated with
     drop(out);
 }
+
+//@h props=C19,C04 tier=quick timeout=900 role=fragment-buffer-layout replay=none
+//@fn FragmentBuffer::{new, write, is_finished, finalize}, drop of the returned Box<[u8]>
+//@bound two fragments (1448 + 1 bytes, a size that is not a multiple of the fragment size), written in order; payload bytes symbolic
+#[kani::proof]
+#[kani::unwind(3)]
+fn o19_1_finalize_dealloc_layout_1449() { finalize_layout(1, false); }
+
+//@h props=C19,C04 tier=quick timeout=900 role=fragment-buffer-layout replay=none
+//@fn FragmentBuffer::{new, write, is_finished, finalize}, drop of the returned Box<[u8]>
+//@bound two fragments (1448 + 0 bytes: an empty last fragment), last fragment written first
+#[kani::proof]
+#[kani::unwind(3)]
+fn o19_1_finalize_dealloc_layout_1448_plus_empty() { finalize_layout(0, true); }
+
+//@h props=C19,C04 tier=thorough timeout=900 role=fragment-buffer-layout replay=none
+//@fn FragmentBuffer::{new, write, is_finished, finalize}, drop of the returned Box<[u8]>
+//@bound two full fragments (2896 bytes, a multiple of the fragment size)
+#[kani::proof]
+#[kani::unwind(3)]
+fn o19_1_finalize_dealloc_layout_2896() { finalize_layout(1448, false); }
 
 //@h props=C04 tier=quick timeout=900 role=fragment-buffer-dup
 //@fn FragmentBuffer::{new, write, is_finished}
